@@ -78,6 +78,13 @@ func (w *vrWorld) reviseTip1(id types.FileContractID, k int, mustAccept bool) bo
 		return false
 	}
 	u := w.open1(id)
+	if u < 0 {
+		if mustAccept {
+			w.hit("live-contract-refuses-revision", fmt.Sprintf("contract %d: ReviseContract refused", w.cN(id)))
+		}
+		w.unlock1(id)
+		return false
+	}
 	for ; k > 0; k-- {
 		a := w.randAction(len(w.upd[u].list))
 		if mustAccept && a.Root != (types.Hash256{}) && !w.stored[a.Root] {
@@ -324,6 +331,14 @@ func (w *vrWorld) c13Generated() {
 					bad = vrRenewBad(1 + rng.Intn(6))
 				}
 				next, ok = w.renew1(l.tip, bad, fault)
+				if ok && rng.Intn(2) == 0 {
+					// WP-G: the session that renewed still holds the lock of the predecessor; the manager's
+					// revising calls refuse it themselves (isGoodForModification: maximum revision number)
+					if u := w.open1(l.tip); u >= 0 {
+						w.hit("renewed-predecessor-accepts-updater", fmt.Sprintf("contract %d, lock still held by the renewing session", w.cN(l.tip)))
+						w.close1(u)
+					}
+				}
 				w.unlock1(l.tip)
 			}
 			em := w.em
